@@ -116,6 +116,44 @@ func propSuites(t *rapid.T) {
 	if mid == nil || !bytes.Equal(mid.UncompressedBytes(), wmid.Uncompressed()) {
 		t.Fatalf("h2c(ro=%v, dst %x, msg %x) right after the same message under dst %x: wrong point", ro, d2, mOrig, dOrig)
 	}
+	// the caller reuses its buffers: the same slices (same backing memory) now hold another tag / message of
+	// the same length; the result must be the function of what the buffers hold now.  Afterwards the original
+	// content is written back into the same memory.
+	if rapid.Bool().Draw(t, "reuse-buffers") {
+		which := gen.Sampled([]string{"dst", "msg", "both"}).Draw(t, "reuse-which")
+		if which != "msg" {
+			for i := range d {
+				d[i] = d2[i]
+			}
+			if rapid.Bool().Draw(t, "reuse-scramble") { // a different tag altogether
+				copy(d, gen.Bytes(t, len(d), len(d), "reuse-dst"))
+				if len(d) > 0 && d[0] == 0 {
+					d[0] = 'Q'
+				}
+			}
+		}
+		if which != "dst" && len(msg) > 0 {
+			msg[rapid.IntRange(0, len(msg)-1).Draw(t, "reuse-mpos")] ^= 0x20
+		}
+		dNow, mNow := append([]byte(nil), d...), append([]byte(nil), msg...)
+		var re *secp256k1.Point
+		var wre ref.Pt
+		if ro {
+			re, _ = h2c.Secp256k1_XMD_SHA256_SSWU_RO(d, msg)
+			wre, _ = ref.HashToCurveRO(mNow, dNow)
+		} else {
+			re, _ = h2c.Secp256k1_XMD_SHA256_SSWU_NU(d, msg)
+			wre, _ = ref.EncodeToCurveNU(mNow, dNow)
+		}
+		if re == nil || !bytes.Equal(re.UncompressedBytes(), wre.Uncompressed()) {
+			t.Fatalf("h2c(ro=%v) after the caller rewrote its %s buffer in place (dst %x -> %x, msg %x -> %x): result is not the RFC 9380 point of the current content", ro, which, dOrig, dNow, mOrig, mNow)
+		}
+		copy(d, dOrig)
+		copy(msg, mOrig)
+		stat.Case("suites", []string{"follow-up:buffers-reused-in-place:" + which}, true, []byte(fmt.Sprintf("reuse|%x|%x", dNow, mNow)), func() any {
+			return map[string]any{"first_dst": stat.Hex(dOrig), "then_dst_same_memory": stat.Hex(dNow), "msg": stat.Hex(mNow)}
+		})
+	}
 	// pure function
 	var again *secp256k1.Point
 	if ro {
